@@ -12,6 +12,7 @@
 From Coq Require Import List Bool String NArith.
 Import ListNotations.
 Require Import Aiuti.Options Aiuti.OptionsInv AiutiGen.T_Options.
+Require Import Aiuti.Case_C15 Aiuti.OptionsMon.
 
 (* Every option a decorator accepts is re-bound under its own name by the
    `@deco(opt=...)` form, applied under its own name by the direct form, and is
@@ -54,7 +55,119 @@ Proof.
 Qed.
 Print Assumptions per_loop_independent.
 
+(* ---- the trace monitor Case_C15.ok and the reference semantics ------------------ *)
+
+(* COMPLETENESS (no false alarm): whenever the three forms produce the trace of the reference
+   semantics, the monitor accepts — for every timeout and every buffer script that hands each
+   argument to the buffer at most once (buf_wf; the driver numbers the arguments) ... *)
+Theorem monitor_complete_buffer : forall (t : option N) (sc : list bufev),
+  buf_wf sc = true ->
+  let m := buf_trace t sc in ok (CBuffer t sc m m m) = true.
+Proof. exact buffer_complete. Qed.
+Print Assumptions monitor_complete_buffer.
+
+(* ... for EVERY batcher configuration (options given or defaulted, degenerate values included)
+   and EVERY script of calls, batch-function returns and pauses ... *)
+Theorem monitor_complete_batcher : forall (cfg : ocfg) (sc : list bev),
+  let m := trace_of (brun (resolve cfg) sc) in ok (CBatcher cfg sc m m m 0) = true.
+Proof. exact batcher_complete. Qed.
+Print Assumptions monitor_complete_batcher.
+
+(* ... and for every configuration and every plan over any number of loops in which a closed loop
+   is not used again (plan_wf): observed = the per-loop components of the product model
+   (loops_obs), solo = each loop's own part of the plan run alone on ONE batcher (loops_solo). *)
+Theorem monitor_complete_loops : forall (cfg : ocfg) (plan : list lev),
+  plan_wf plan = true ->
+  ok (CLoops cfg plan (loops_obs cfg plan) (loops_solo cfg plan) 0) = true.
+Proof. exact loops_complete. Qed.
+Print Assumptions monitor_complete_loops.
+
+(* SOUNDNESS (what an accepted implementation trace says; no model involved).
+   Buffer: the three forms flushed at the same instants the same sets of arguments; every flush is
+   non-empty, all its arguments were submitted, and it happened exactly [timeout] after the last
+   of those submissions. *)
+Theorem monitor_sound_buffer : forall t sc d1 d2 d3,
+  ok (CBuffer t sc d1 d2 d3) = true ->
+  let T := match t with Some v => v | None => buf_default_timeout end in
+  same_flushes d1 d2 /\ same_flushes d3 d2 /\
+  forall tf args, In (tf, args) d2 ->
+    args <> [] /\
+    exists a_last t_last,
+      In a_last args /\ submitted_at sc a_last t_last /\
+      (forall a, In a args -> exists ta, submitted_at sc a ta /\ (ta <= t_last)%N) /\
+      tf = (t_last + T)%N.
+Proof. exact buffer_sound. Qed.
+Print Assumptions monitor_sound_buffer.
+
+(* Batcher: the three forms' traces are EQUAL; no batch-function call on a foreign loop; every batch
+   has between 1 and max_batch_size keys (max 1 max_batch_size: see Case_C15.batcher_sane), all of
+   them submitted by the script; there is one answer slot per call, and every answered caller was
+   answered by a batch that contains its key. *)
+Theorem monitor_sound_batcher : forall cfg sc d1 d2 d3 cross,
+  ok (CBatcher cfg sc d1 d2 d3 cross) = true ->
+  d1 = d2 /\ d3 = d2 /\ cross = 0 /\
+  (forall t ks, In (t, ks) (fst d2) ->
+     1 <= List.length ks <= Nat.max 1 (cB (resolve cfg)) /\ forall k, In k ks -> In k (call_keys sc)) /\
+  List.length (snd d2) = List.length (call_keys sc) /\
+  (forall i k t b, nth_error (call_keys sc) i = Some k -> nth_error (snd d2) i = Some (Some (t, b)) ->
+     exists t' ks, nth_error (fst d2) b = Some (t', ks) /\ In k ks).
+Proof. exact batcher_sound. Qed.
+Print Assumptions monitor_sound_batcher.
+
+(* Loops: every loop's trace is exactly the trace of that loop's own part of the plan run alone
+   ("its own independent batching"), and is sane with respect to that loop's own keys. *)
+Theorem monitor_sound_loops : forall cfg plan observed solo cross,
+  ok (CLoops cfg plan observed solo cross) = true ->
+  cross = 0 /\ List.length observed = List.length solo /\
+  forall l tr, In (l, tr) observed ->
+    assoc l solo = Some tr /\
+    (forall t ks, In (t, ks) (fst tr) ->
+       1 <= List.length ks <= Nat.max 1 (cB (resolve cfg)) /\ forall k, In k ks -> In k (keys_on l plan)) /\
+    List.length (snd tr) = List.length (keys_on l plan) /\
+    (forall i k t b, nth_error (keys_on l plan) i = Some k -> nth_error (snd tr) i = Some (Some (t, b)) ->
+       exists t' ks, nth_error (fst tr) b = Some (t', ks) /\ In k ks).
+Proof. exact loops_sound. Qed.
+Print Assumptions monitor_sound_loops.
+
 (* ---- non-vacuity ----------------------------------------------------------- *)
+(* well-formed scripts / plans exist and produce non-trivial accepted cases; the side conditions
+   are needed: with an argument submitted twice the monitor's "last submission" is not defined by
+   the script alone and it rejects the reference trace *)
+Example buf_wf_example :
+  let sc := [Sub 0; BAdv 10%N; Sub 1; BAdv 25%N; Sub 2; BAdv 10000%N] in
+  buf_wf sc = true /\ buf_trace (Some 15%N) sc = [(25%N, [0; 1]); (50%N, [2])].
+Proof. vm_compute. split; reflexivity. Qed.
+
+Example buf_wf_needed :
+  let sc := [Sub 0; BAdv 10%N; Sub 0; BAdv 10000%N] in
+  buf_wf sc = false /\ (let m := buf_trace (Some 15%N) sc in ok (CBuffer (Some 15%N) sc m m m)) = false.
+Proof. vm_compute. split; reflexivity. Qed.
+
+Example batcher_complete_example :
+  let cfg := mkocfg (Some 2) (Some 1) None (Some 50%N) in
+  let sc := [BCall 1; BCall 2; BCall 3; BCall 1; Adv 300%N; BFin 0; Adv 10%N; BCall 1; BFin 1; Adv 100%N] in
+  trace_of (brun (resolve cfg) sc) =
+  ([(0%N, [1; 2]); (300%N, [3])],
+   [Some (300%N, 0); Some (300%N, 0); Some (310%N, 1); Some (300%N, 0); Some (310%N, 0)]).
+Proof. vm_compute. reflexivity. Qed.
+
+(* max_batch_size = 0: the reference semantics (and the library) hands over singletons *)
+Example batcher_zero_size_example :
+  trace_of (brun (resolve (mkocfg (Some 0) None None None)) [BCall 1; BCall 2]) =
+  ([(0%N, [1]); (0%N, [2])], [None; None]).
+Proof. vm_compute. reflexivity. Qed.
+
+Example plan_wf_example :
+  let plan := [LSeg 0 [BCall 1; BCall 2]; LSeg 1 [BCall 1]; LSeg 0 [BFin 0]; LClose 0;
+               LSeg 2 [BCall 1; BCall 2; BFin 0]; LSeg 1 [Adv 300%N]] in
+  let cfg := mkocfg (Some 2) None None None in
+  plan_wf plan = true /\
+  loops_obs cfg plan = [(1, ([(256%N, [1])], [None])); (2, ([(0%N, [1; 2])], [Some (0%N, 0); Some (0%N, 0)]));
+                        (0, ([(0%N, [1; 2])], [Some (0%N, 0); Some (0%N, 0)]))] /\
+  loops_solo cfg plan = loops_obs cfg plan /\
+  plan_wf (plan ++ [LSeg 0 [BCall 1]]) = false.
+Proof. vm_compute. repeat split. Qed.
+
 Example decorators_nonempty :
   map dname decorators = ["threadsafe_async_cache"; "buffer_until_timeout"; "async_background_batcher"]%string /\
   map (fun d => List.length (accepted d)) decorators = [1; 1; 4].
